@@ -42,6 +42,8 @@ struct EoNStateInner {
     seq: u8,
     online: bool,
     birthed: bool,
+    /* incremented every time a node birth is started, device births are only valid for the node birth they were published in */
+    birth_epoch: u64,
 }
 
 pub(crate) struct EoNState {
@@ -55,6 +57,15 @@ pub(crate) struct EoNState {
 
 impl EoNState {
     pub(crate) fn get_next_seq(&self) -> Result<u64, StateError> {
+        self.get_next_seq_and_epoch(None).map(|(seq, _)| seq)
+    }
+
+    /// Get the next sequence number along with the epoch of the current node birth.
+    /// If an epoch is provided the sequence number is only allocated if that epoch is still the current one.
+    pub(crate) fn get_next_seq_and_epoch(
+        &self,
+        required_epoch: Option<u64>,
+    ) -> Result<(u64, u64), StateError> {
         let mut state = self.inner.lock().unwrap();
         if !state.online {
             return Err(StateError::Offline);
@@ -62,8 +73,13 @@ impl EoNState {
         if !state.birthed {
             return Err(StateError::UnBirthed);
         }
+        if let Some(epoch) = required_epoch {
+            if epoch != state.birth_epoch {
+                return Err(StateError::UnBirthed);
+            }
+        }
         state.seq = state.seq.wrapping_add(1);
-        Ok(state.seq as u64)
+        Ok((state.seq as u64, state.birth_epoch))
     }
 
     fn online_swap(&self, online: bool) -> bool {
@@ -90,6 +106,7 @@ impl EoNState {
         let mut state = self.inner.lock().unwrap();
         state.birthed = false;
         state.seq = 0;
+        state.birth_epoch = state.birth_epoch.wrapping_add(1);
     }
 
     fn birth_completed(&self) {
@@ -673,6 +690,7 @@ impl EoN {
                 seq: 0,
                 online: false,
                 birthed: false,
+                birth_epoch: 0,
             }),
             ndata_topic: NodeTopic::new(&group_id, NodeMessageType::NData, &node_id),
             group_id,
